@@ -89,6 +89,42 @@ func WriteBed(recs []Bed, typ, width int) ([]byte, error) {
 	return buf.Bytes(), nil
 }
 
+// Sink accepts Left more bytes and then fails; Got counts what it accepted.
+type Sink struct{ Left, Got int }
+
+var ErrSink = fmt.Errorf("sink full")
+
+func (l *Sink) Write(p []byte) (int, error) {
+	if len(p) <= l.Left {
+		l.Left -= len(p)
+		l.Got += len(p)
+		return len(p), nil
+	}
+	n := l.Left
+	l.Left = 0
+	l.Got += n
+	return n, ErrSink
+}
+
+// CountsUnderFailure writes the items to a sink that fails after limit bytes and returns a description of
+// the first call whose returned count differs from what the sink accepted during that call ("" if none),
+// and whether the sink failed at all.
+func CountsUnderFailure(mk func(w *Sink) func(i int) (int, error), items, limit int) (string, bool) {
+	sink := &Sink{Left: limit}
+	write := mk(sink)
+	for i := 0; i < items; i++ {
+		before := sink.Got
+		n, err := write(i)
+		if n != sink.Got-before {
+			return fmt.Sprintf("item %d: Write returned (%d, %v) but the sink accepted %d bytes during the call (sink fails after %d bytes)", i, n, err, sink.Got-before, limit), true
+		}
+		if err != nil {
+			return "", true
+		}
+	}
+	return "", false
+}
+
 // ReadFeatures reads until io.EOF or the first error, making at most limit calls.
 func ReadFeatures(r featio.Reader, limit int) (fs []feat.Feature, calls int, err error) {
 	for calls < limit {
